@@ -872,3 +872,131 @@ func scenC15App(run *vlab.Run, sx, tmp string) {
 		ln.Close()
 	}
 }
+
+// ---------------------------------------------------------------------------
+// c08http: the HTTP-based application scans (elastic, docker) with many workers against one server that plays
+// every address of a /26../24: every target receives exactly one primary request (GET / resp. .../info), is
+// printed exactly once, and its record carries the answer that was served to THAT address. More than one primary
+// request for a target, a record with another target's answer or a repeated record are judged at once; a target
+// without request or record on three runs.
+
+func init() { scenarios["c08http"] = scenC08HTTP }
+
+func scenC08HTTP(run *vlab.Run, sx, tmp string) {
+	rng := run.Rand("c08http")
+	n := run.Pick(12, 72)
+	for i := 0; i < n; i++ {
+		kind := []string{"elastic", "docker"}[i%2]
+		workers := []int{8, 100, 2, 1, 32, 1000}[i/2%6]
+		bits := 24 + rng.Intn(3)
+		base := (uint32(0x7f000000) | uint32(1+rng.Intn(200))<<16 | uint32(rng.Intn(256))<<8) &^ (1<<uint(32-bits) - 1)
+		size := uint32(1) << uint(32-bits)
+		port := 20000 + rng.Intn(20000)
+		if !run.Mine(i) {
+			continue
+		}
+		var mu sync.Mutex
+		primary := map[string]int{}
+		handler := http.HandlerFunc(func(w http.ResponseWriter, r *http.Request) {
+			local := r.Context().Value(http.LocalAddrContextKey).(net.Addr).String()
+			host, _, _ := net.SplitHostPort(local)
+			w.Header().Set("Api-Version", "1.41")
+			if kind == "docker" && strings.HasSuffix(r.URL.Path, "/_ping") {
+				fmt.Fprint(w, "OK")
+				return
+			}
+			if kind == "elastic" && r.URL.Path == "/" || kind == "docker" && strings.HasSuffix(r.URL.Path, "/info") {
+				mu.Lock()
+				primary[host]++
+				mu.Unlock()
+			}
+			w.Header().Set("Content-Type", "application/json")
+			fmt.Fprintf(w, `{"ID":"id-%s","Name":"n-%s","name":"n-%s","cluster_name":"c","Version":"20.10.0","ApiVersion":"1.41"}`, host, host, host)
+		})
+		ln, err := net.Listen("tcp4", fmt.Sprintf("0.0.0.0:%d", port))
+		if err != nil {
+			continue
+		}
+		srv := &http.Server{Handler: handler}
+		go srv.Serve(ln)
+		args := []string{kind, "--json", "-p", fmt.Sprint(port), "-w", fmt.Sprint(workers), "-t", "5s", fmt.Sprintf("%s/%d", ipS(base), bits)}
+		run.Case(fmt.Sprintf("c08http%03d", i), args)
+		for attempt := 0; attempt < 3; attempt++ {
+			final := attempt == 2
+			mu.Lock()
+			primary = map[string]int{}
+			mu.Unlock()
+			res := RunCase(sx, &CaseSpec{Args: args, Setup: loOnly, Timeout: 180 * time.Second})
+			run.Eval(1)
+			if !baseChecks(run, res, args, true) {
+				break
+			}
+			printed := map[string]int{}
+			bad := false
+			for _, l := range res.Stdout {
+				var m struct {
+					Host string                 `json:"host"`
+					Info map[string]interface{} `json:"info"`
+				}
+				if !strings.HasSuffix(l, "\n") || json.Unmarshal([]byte(l), &m) != nil {
+					run.Violation("http:line-not-json", fmt.Sprintf("stdout line is not one JSON record: %.200q", l), args)
+					bad = true
+					continue
+				}
+				h, _, _ := net.SplitHostPort(strings.TrimPrefix(m.Host, "tcp://"))
+				printed[h]++
+				got := m.Info["name"]
+				if kind == "docker" {
+					got = m.Info["Name"]
+				}
+				if got != "n-"+h {
+					run.Violation("http:record-carries-another-targets-answer", fmt.Sprintf("the record of %s carries the answer that was served to %v (%d workers): %s", h, got, workers, strings.Join(args, " ")), args)
+					bad = true
+				}
+			}
+			soft := false
+			mu.Lock()
+			for a := base; a < base+size; a++ {
+				h := ipS(a)
+				switch c := primary[h]; {
+				case c == 0 && !final:
+					soft = true
+				case c != 1:
+					run.Violation("http:primary-requests-per-target", fmt.Sprintf("%s received %d primary requests (exactly one expected; %d workers): %s", h, c, workers, strings.Join(args, " ")), args)
+					bad = true
+				}
+				switch c := printed[h]; {
+				case c == 0 && !final:
+					soft = true
+				case c != 1:
+					run.Violation("http:records-per-target", fmt.Sprintf("%s served its JSON info once and was printed %d times (%d workers): %s", h, c, workers, strings.Join(args, " ")), args)
+					bad = true
+				}
+				delete(printed, h)
+				delete(primary, h)
+			}
+			for h, c := range primary {
+				run.Violation("http:request-outside-targets", fmt.Sprintf("%d primary requests to %s, which is not a target", c, h), args)
+				bad = true
+			}
+			mu.Unlock()
+			for h := range printed {
+				run.Violation("http:record-outside-targets", fmt.Sprintf("record for %s, which is not a target", h), args)
+				bad = true
+			}
+			if soft && !bad {
+				run.Count("c08_http_runs_retried", 1)
+				continue
+			}
+			if !bad {
+				run.Count("c08_http_runs_ok", 1)
+			}
+			run.Count("c08_http_runs", 1)
+			run.Count("c08_http_runs:"+kind, 1)
+			run.Count("c08_http_targets", int64(size))
+			run.Distinct(strings.Join(args, " "))
+			break
+		}
+		srv.Close()
+	}
+}
